@@ -1238,16 +1238,46 @@ def a8(repo: Repo) -> RuleResult:
     # (e) push_member: duplicate check, validator before insertion
     pm = m.func("_ast.py", "Scope.push_member").node
     res.inst(part="push_member")
-    body = pm.body
-    idx_dup = next((i for i, st in enumerate(body) if isinstance(st, ast.If) and "in self.members" in src_of(st.test) and any(isinstance(x, ast.Raise) for x in st.body)), None)
-    idx_val = next((i for i, st in enumerate(body) if isinstance(st, ast.Expr) and "self.validate_member_on_push(" in src_of(st)), None)
-    idx_ins = next((i for i, st in enumerate(body) if isinstance(st, ast.Assign) and src_of(st.targets[0]).startswith("self.members[")), None)
-    if idx_dup is None:
-        res.bad(Finding("A8", AST, pm.lineno, "Scope.push_member", "", "no duplicate-name check before insertion", witness="message A {} message A {}", tag="push_member:dup"))
-    elif not ("DuplicatedDefinition" in src_of(body[idx_dup]) and src_of(body[idx_dup].test) in ("name in self.members",)):
-        res.bad(Finding("A8", AST, body[idx_dup].lineno, "Scope.push_member", src_of(body[idx_dup].test), "the duplicate test is not `name in self.members` raising DuplicatedDefinition", tag="push_member:dup-form"))
-    if idx_val is None or idx_ins is None or idx_val > idx_ins:
-        res.bad(Finding("A8", AST, pm.lineno, "Scope.push_member", "", "validate_member_on_push must run (unconditionally) before the member is inserted", witness="duplicate field number accepted / compared with itself", tag="push_member:order"))
+    try:
+        from .normal import V, show
+        from .pyflow import PyFlow
+
+        ps = [a.arg for a in pm.args.args]
+        pmem, pname = (ps[1], ps[2]) if len(ps) >= 3 else ("member", "name")
+        paths = PyFlow(funcs={}, havoc_on=(), primitives=("validate_member_on_push",)).run(pm, {ps[0]: V("self"), pmem: V("member"), pname: V("name")})
+        stored = dup_raise = False
+        for p_ in paths:
+            none_name = None
+            for k_, t_ in p_.guards:
+                if k_[0] == "isnone" and show(k_[1]) == "name":
+                    none_name = t_
+                if k_[0] == "truthy" and show(k_[1]) == "name":
+                    none_name = (not t_) if none_name is None else none_name
+            want_key = "member.name" if none_name else "name"
+            dup = [(k_, t_) for k_, t_ in p_.guards if k_[0] == "contains" and show(k_[1]) == "self.members"]
+            sts = [e for e in p_.effects if e.kind == "store" and e.name == "self.members"]
+            vals = [i for i, e in enumerate(p_.effects) if e.kind == "call" and e.name == "validate_member_on_push"]
+            raises = [e for e in p_.effects if e.kind == "raise"]
+            if raises and dup and dup[-1][1] and "DuplicatedDefinition" in raises[-1].name:
+                dup_raise = True
+                if show(dup[-1][0][2]) != want_key and none_name is not None:
+                    res.bad(Finding("A8", AST, pm.lineno, "Scope.push_member", show(dup[-1][0][2]), f"the duplicate test looks up `{show(dup[-1][0][2])}`, the member is stored under `{want_key}`", witness="message A {} message A {}", tag="push_member:dup-form"))
+            for st_ in sts:
+                stored = True
+                key = show(st_.args[0])
+                si = p_.effects.index(st_)
+                if none_name is not None and key != want_key:
+                    res.bad(Finding("A8", AST, pm.lineno, "Scope.push_member", key, f"the member is stored under `{key}`, expected `{want_key}` (the explicit name, else the member's own name)", tag="push_member:key"))
+                if not dup or dup[-1][1] is not False or show(dup[-1][0][2]) != key:
+                    res.bad(Finding("A8", AST, pm.lineno, "Scope.push_member", str(p_.guard_text()), "no duplicate-name check (same key, raising DuplicatedDefinition) before insertion", witness="message A {} message A {}", tag="push_member:dup"))
+                if not vals or vals[0] > si or [show(a) for a in p_.effects[vals[0]].args] != ["member", key]:
+                    res.bad(Finding("A8", AST, pm.lineno, "Scope.push_member", "", "validate_member_on_push must run (unconditionally, with the member and its name) before the member is inserted", witness="duplicate field number accepted / compared with itself", tag="push_member:order"))
+        if not stored:
+            res.unsure("A8: Scope.push_member: no store into self.members found")
+        elif not dup_raise:
+            res.bad(Finding("A8", AST, pm.lineno, "Scope.push_member", "", "no duplicate-name check before insertion", witness="message A {} message A {}", tag="push_member:dup"))
+    except Inconclusive as e:
+        res.unsure(f"A8: Scope.push_member: {e}")
 
     # (f) definitions constructed in actions are pushed; bound definitions get scope_stack and _bound
     defn = m.cls("Definition", "_ast.py")
